@@ -119,14 +119,102 @@ class Result:
         return self.status == 'unsat'
 
 
+def _has_quant(f):
+    stack = [f]
+    seen = set()
+    while stack:
+        t = stack.pop()
+        i = t.get_id()
+        if i in seen:
+            continue
+        seen.add(i)
+        if z3.is_quantifier(t):
+            return True
+        stack.extend(t.children())
+    return False
+
+
+_qcount = [0]
+
+
+def universal_clauses(f):
+    """f is in skolemised NNF.  Returns [(vars, quantifier-free body)] whose conjunction (each universally
+    closed) is implied by f — exact when universals only occur under And/Or (prenexing over Or is sound
+    because bound variables are renamed apart)."""
+    if z3.is_quantifier(f):
+        if not f.is_forall():
+            return [([], f)]
+        vs = []
+        for i in range(f.num_vars()):
+            _qcount[0] += 1
+            vs.append(z3.Const('uq!%d_%s' % (_qcount[0], f.var_name(i)), f.var_sort(i)))
+        body = z3.substitute_vars(f.body(), *reversed(vs))
+        out = []
+        for (v2, b2) in universal_clauses(body):
+            out.append((vs + v2, b2))
+        return out
+    if z3.is_and(f):
+        out = []
+        for ch in f.children():
+            out.extend(universal_clauses(ch))
+        return out
+    if z3.is_or(f) and _has_quant(f):
+        # (∀x.A) ∨ B  ==>  ∀x.(A ∨ B): combine one clause choice per disjunct (cartesian, kept small)
+        parts = [universal_clauses(ch) for ch in f.children()]
+        total = 1
+        for p in parts:
+            total *= len(p)
+        if total > 64:
+            return [([], f)]
+        out = []
+        for combo in itertools.product(*parts):
+            vs = [v for (v2, _) in combo for v in v2]
+            out.append((vs, z3.Or(*[b for (_, b) in combo])))
+        return out
+    return [([], f)]
+
+
+def prepare(formulas):
+    """skolemise, split into ground formulas and universally quantified clauses"""
+    ground, quants = [], []
+    from .core import QHyp
+    for f in formulas:
+        if not _has_quant(f):
+            ground.append(f)
+            continue
+        g = z3.Goal()
+        g.add(f)
+        res = z3.Tactic('snf')(g)
+        for sub in res:
+            for h in sub:
+                for (vs, body) in universal_clauses(h):
+                    if vs and not _has_quant(body):
+                        quants.append(QHyp(vs, body, 'spec'))
+                    else:
+                        ground.append(h if not vs else z3.ForAll(vs, body))
+    return ground, quants
+
+
 def discharge(vc, use_cvc5=True):
     t0 = time.time()
-    inst = instantiate(vc.hyps, vc.qhyps, vc.goal)
+    base = list(vc.hyps) + [z3.Not(vc.goal)]
+    ground, quants = prepare(base)
+    qh = list(vc.qhyps) + quants
+    inst = instantiate(ground, qh, z3.BoolVal(True))
     s = z3.Solver()
     s.set('timeout', Z3_TIMEOUT_MS)
-    fs = list(vc.hyps) + inst + atom_facts() + [z3.Not(vc.goal)]
+    fs = ground + inst + atom_facts()
     s.add(*fs)
     r = s.check()
+    if r == z3.sat and (quants or vc.qhyps) and vc.expect != 'sat':
+        # the ground instances have a model; ask z3 about the quantified problem itself before reporting
+        s3 = z3.Solver()
+        s3.set('timeout', 5000)
+        s3.add(*(base + atom_facts() + inst))
+        for q in vc.qhyps:
+            s3.add(z3.ForAll(q.vars, q.body))
+        if s3.check() == z3.unsat:
+            return Result(vc, 'unsat', 'z3(quantified)', time.time() - t0)
     if r == z3.unknown and vc.expect == 'sat':
         # canaries only need non-refutation evidence: retry without the instantiated quantifiers
         s2 = z3.Solver()
